@@ -1609,6 +1609,8 @@ class Interp:
 
 
 def _neg(x):
+    if hasattr(x, '_asarray') or type(x).__name__ == 'NDArray':
+        return ~x
     return s_not(truthy(x))
 
 
